@@ -12,21 +12,21 @@ git -C /repo worktree add --detach -q $WT HEAD || exit 2
 DEMO=$(git -C $SRC status --porcelain | grep '^??' | grep -v '_out/' | awk '{print $2}' | head -1)
 CMD=$(grep -h "go test" $SRC/_out/demo_cmd.txt | grep -v '^#' | head -1 | sed 's/^cd [^&]*&& *//; s/ 2>&1.*$//; s/ *|.*$//')
 cp $SRC/_out/patch.diff $OUT/patch.diff
-cp $SRC/$DEMO $OUT/$(basename $DEMO)
+cp -r $SRC/$DEMO $OUT/$(basename $DEMO)
 cp $SRC/_out/notes.md $OUT/agent_notes.md 2>/dev/null
-mkdir -p $WT/$(dirname $DEMO); cp $SRC/$DEMO $WT/$DEMO
+mkdir -p $WT/$(dirname $DEMO); cp -r $SRC/$DEMO $WT/$(dirname $DEMO)/
 cd $WT
 echo "[$NAME] demo=$DEMO cmd=$CMD"
 timeout 1200 unshare -n bash -c "ip link set lo up; $CMD" > $OUT/demo_unchanged.log 2>&1; U=$?
 git apply $OUT/patch.diff || { echo "[$NAME] PATCH DOES NOT APPLY"; exit 3; }
 go build ./... > $OUT/build.log 2>&1; B=$?
 timeout 1200 unshare -n bash -c "ip link set lo up; $CMD" > $OUT/demo_changed.log 2>&1; C=$?
-mv $WT/$DEMO /tmp/conf-demo-$NAME.go
+rm -rf /tmp/conf-demo-$NAME.go; mv $WT/$DEMO /tmp/conf-demo-$NAME.go
 unshare -n bash -c "ip link set lo up; go test -vet=off -count=1 ./..." > $OUT/suite_changed.log 2>&1; S=$?
 if grep -qa "address already in use\|^panic" $OUT/suite_changed.log; then BADPANIC="panic-in-suite "; else BADPANIC=""; fi
 FAILS=$(grep -a '^--- FAIL' $OUT/suite_changed.log | awk '{print $3}' | sort -u | tr '\n' ' ')
 BADFAILS=$BADPANIC$(for f in $FAILS; do case $f in TestInsertionHappyPath|TestInsertionWrongInput|TestWrongMethod) ;; *) echo -n "$f ";; esac; done)
-rm -f /tmp/conf-demo-$NAME.go
+rm -rf /tmp/conf-demo-$NAME.go
 cd /; git -C /repo worktree remove --force $WT
 OK=false; if [ $U -eq 0 ] && [ $B -eq 0 ] && [ $C -ne 0 ] && [ -z "$BADFAILS" ]; then OK=true; fi
 cat > $OUT/confirm.json <<JSON
